@@ -258,16 +258,9 @@ def _run_chunk(binpath, cases, wd, tag, per_case_timeout):
         os.remove(opath)
     results = [None] * len(cases)
     start = 0
-    while start < len(cases):
-        budget = per_case_timeout * min(len(cases) - start, 50) + 20
-        try:
-            p = subprocess.run([binpath, cpath, opath, str(start)], stdout=subprocess.DEVNULL,
-                               stderr=subprocess.PIPE, timeout=budget, env=ENV)
-            rc = p.returncode
-            err = p.stderr.decode("utf-8", "replace")[-500:]
-        except subprocess.TimeoutExpired:
-            rc = "timeout"
-            err = ""
+
+    def read_out():
+        """results so far and the index of the case that was begun last"""
         last_begin = None
         if os.path.exists(opath):
             with open(opath) as f:
@@ -280,6 +273,33 @@ def _run_chunk(binpath, cases, wd, tag, per_case_timeout):
                         last_begin = o["index"]
                     else:
                         results[o["index"]] = o
+        return last_begin
+
+    while start < len(cases):
+        # one process per stretch of cases; a watchdog kills it when a single case runs beyond its budget
+        p = subprocess.Popen([binpath, cpath, opath, str(start)], stdout=subprocess.DEVNULL, stderr=subprocess.PIPE, env=ENV)
+        seen_begin, since = None, time.time()
+        rc = None
+        while True:
+            try:
+                p.wait(timeout=0.5)
+                rc = p.returncode
+                break
+            except subprocess.TimeoutExpired:
+                pass
+            size = os.path.getsize(opath) if os.path.exists(opath) else 0
+            if size != seen_begin:
+                seen_begin, since = size, time.time()
+            elif time.time() - since > per_case_timeout:
+                p.kill()
+                p.wait()
+                rc = "timeout"
+                break
+        try:
+            err = p.stderr.read().decode("utf-8", "replace")[-500:] if p.stderr else ""
+        except Exception:
+            err = ""
+        last_begin = read_out()
         if rc == 0:
             break
         # abnormal end: attribute to the case that was begun and not finished
